@@ -60,3 +60,52 @@ class Ack(object):
                 if not s['ak5'] or s['ak5'][0] != 'A':
                     return False
         return True
+
+
+def shape_error(segs):
+    """None when the segment ids spell  ISA GS (ST AK1 (AK2 ((AK3|IK3) (CTX)* ((AK4|IK4) (CTX)*)*)* (AK5|IK5))* AK9 SE)+ GE (TA1)* IEA  -
+    the grammar of a 997 / 999 - else a short description of the first place where they do not"""
+    ids = [s for s, e in segs]
+    i = 0
+
+    def at(k):
+        return ids[k] if k < len(ids) else None
+    if at(0) != 'ISA' or at(1) != 'GS':
+        return 'does not start with ISA GS'
+    i = 2
+    nst = 0
+    while at(i) == 'ST':
+        nst += 1
+        i += 1
+        if at(i) != 'AK1':
+            return 'ST not followed by AK1 (segment %d: %s)' % (i + 1, at(i))
+        i += 1
+        while at(i) == 'AK2':
+            i += 1
+            while at(i) in ('AK3', 'IK3'):
+                i += 1
+                while at(i) == 'CTX':
+                    i += 1
+                while at(i) in ('AK4', 'IK4'):
+                    i += 1
+                    while at(i) == 'CTX':
+                        i += 1
+            if at(i) not in ('AK5', 'IK5'):
+                return 'AK2 loop not closed by AK5/IK5 (segment %d: %s)' % (i + 1, at(i))
+            i += 1
+        if at(i) != 'AK9':
+            return 'no AK9 where the AK2 loops end (segment %d: %s)' % (i + 1, at(i))
+        i += 1
+        if at(i) != 'SE':
+            return 'AK9 not followed by SE (segment %d: %s)' % (i + 1, at(i))
+        i += 1
+    if nst == 0:
+        return 'no transaction set (segment %d: %s - an acknowledgement segment outside ST..SE?)' % (i + 1, at(i))
+    if at(i) != 'GE':
+        return 'after the last SE comes %s, not GE (segment %d - an acknowledgement segment outside ST..SE?)' % (at(i), i + 1)
+    i += 1
+    while at(i) == 'TA1':
+        i += 1
+    if at(i) != 'IEA' or i != len(ids) - 1:
+        return 'does not end with GE (TA1) IEA (segment %d: %s)' % (i + 1, at(i))
+    return None
